@@ -16,7 +16,10 @@ PROPERTY = {
         }, carries_lemmas=("lemma_cells_append",)),
         Unit("c01_writers", "C17", "c01_writers.vrs", desc={}),
     ],
-    "kani": [],
+    "timeout": 900,
+    "kani": [
+        Harness("c17_twin_add_value", "C17.twin.add_value", "BOUNDED", "rollback + count == cells with a carrier that writes <= 3 bytes (+ a nested cell) through the CellWriter API and fails nondeterministically, after 0..2 earlier values", bound="<= 2 earlier values, <= 3 garbage bytes", crate="scylla-cql-core", twin=True, functions=["scylla-cql-core/src/serialize/row.rs:SerializedValues::add_value"]),
+    ],
     "trusted_base": ["Verus/Z3 soundness", "SerializeValue::serialize trait contract (assumed for impls)", "Vec::resize truncation", "i32::to_be_bytes"],
     "assumptions": [],
     "not_covered": ["type-check matrix (pending)", "third-party impls of SerializeValue"],
